@@ -29,8 +29,8 @@ CLAIMS = {
    "DESIGN.md section 4 C06"),
  "C11": ("proof",
    "call-graph reachability (VTA) with mode-gated call sites removed, dominance on go/ssa, inter-procedural command-provenance evaluation against a read-only allow-list",
-   "Proof of the structural statement: no ApplyCommands implementation is reachable on the compare path; every path to one lies on the false edge of the compare flag, which callers bind to --compare / the verb 'compare'; every command pattern that can reach a device primitive outside the apply region is in the frozen read-only allow-list (the ASA terminal-width trio being the property's documented exception). All obligations are discharged on every run.",
-   "Trusted: call-graph soundness (asserted: no reflect/unsafe/cgo/linkname), read-only-ness of the allow-listed commands themselves.",
+   "Proof of the structural statement: no ApplyCommands implementation is reachable on the compare path; every path to one lies on the false edge of the compare flag, which callers bind to --compare / the verb 'compare'; every command pattern that can reach a device primitive outside the apply region is in the frozen read-only allow-list (the ASA terminal-width trio being the property's documented exception); the one thing typed outside that list, the password of the login dialogue, is typed only at the audited sites under the audited conditions (the device has asked for the login / enable password), so it cannot be taken as the answer to another question. All obligations are discharged on every run.",
+   "Trusted: call-graph soundness (asserted: no reflect/unsafe/cgo/linkname), read-only-ness of the allow-listed commands themselves; the audited password-prompt conditions of tables/guards.tsv (R11.p).",
    "DESIGN.md section 4 C11"),
  "C12": ("proof",
    "gated call-graph reachability (VTA, one level of constant-argument context), dominance and def-use on go/ssa",
